@@ -64,7 +64,7 @@ def siteName : Site → String
 
 def errName : Err → String
   | .version => "version" | .negCount => "negCount" | .eof => "eof" | .roaring => "roaring" | .crc => "crc"
-  | .plugin => "plugin" | .segment => "segment" | .noSnapshot => "noSnapshot"
+  | .plugin => "plugin" | .segment => "segment" | .noSnapshot => "noSnapshot" | .length => "length"
 
 /-- outcome class as the harness prints it; `gray`: a claim between the budget and 16× the budget, where
 the real allocation may or may not be noticed by the measurement — the driver then repeats the
@@ -93,6 +93,14 @@ def declaredCount (inp : Bytes) : Option Nat :=
     | .ok (c, _, _) => some c
     | _ => none
   | _ => none
+
+/-- `bad:` verdicts for files that are accepted although they are not encodings (DESIGN 0.3, C12 findings
+`accepted-truncated-or-extended-body` and `accepted-noncanonical-overlong-or-payload`); `false`: only counted
+as the coverage branch `ld-accepted-noncanonical` -/
+def strictCanonical : Bool := true
+
+/-- the code with every repair except the length checks: what a file that is not an encoding needs to get past -/
+def cfgUnchecked : Cfg := { Cfg.guarded with lengthChecked := false }
 
 def brs (l : List String) : String := if l.isEmpty then "" else " br=" ++ ",".intercalate l
 
@@ -235,12 +243,29 @@ def c12step (_ : Unit) (op : String) (impl : String) : Unit × String :=
                     | _, _ => false
                   if crcWrong then "bad:accepted-with-wrong-crc" else
                   match declaredCount (bodyOf file) with
-                  | some c => if c != implCount then "bad:accepted-count-mismatch" else "ok"
+                  | some c =>
+                    if c != implCount then "bad:accepted-count-mismatch"
+                    else if !strictCanonical then "ok"
+                    else
+                      -- not an encoding, yet accepted. Would the length-checked decoder have refused it (a field missing
+                      -- at the end of the body read as 0, bytes behind the last segment)? Otherwise the body spells its
+                      -- state with an over-long uvarint or a payload roaring reads but does not write.
+                      match loadSnapshot ro Cfg.guarded false file with
+                      | .ok _ => "bad:accepted-noncanonical-overlong-or-payload"
+                      | _ => "bad:accepted-truncated-or-extended-body"
                   | none => "bad:accepted-non-encoding"
                 else if ic == "error" then "bad:no-fallback"
                 else "bad:accepted-other-state"
+            -- classes of inputs that are not encodings but CRC-consistent (by the model alone, whatever the code does)
+            let noncanon : List String :=
+              if isEnc then [] else
+              match loadSnapshot ro cfgUnchecked false file, loadSnapshot ro Cfg.guarded false file with
+              | .ok _, .ok _ => ["ld-noncanon-overlong-or-payload"]
+              | .ok _, _ => ["ld-noncanon-truncated-or-extended"]
+              | _, _ => []
             let extra :=
               (if isEnc then ["ld-encoding"] else ["ld-damaged"]) ++
+              (if isEnc && file.length > 4100 then ["ld-encoding-gt4096"] else []) ++ noncanon ++
               (if !isEnc && impl.startsWith "ok epoch=2 " then ["ld-accepted-noncanonical"] else []) ++
               (if impl.startsWith "ok epoch=1 " then ["ld-fallback-used"] else []) ++
               (match newestRes with | .error e => ["ld-newest-err-" ++ errName e] | .ok _ => ["ld-newest-accepted"] | _ => []) ++
